@@ -107,6 +107,14 @@ fn handle(entry: &str, bytes: &[u8]) -> String {
                 HeaderResult::V2(x) => format!("V2 {} complete={}", v2_result(x), r.is_complete()),
             }
         }
+        "ip4" => match std::str::from_utf8(bytes).ok().and_then(|s| s.parse::<std::net::Ipv4Addr>().ok()) {
+            Some(a) => format!("Ok {}", u32::from(a)),
+            None => "Err".into(),
+        },
+        "ip6" => match std::str::from_utf8(bytes).ok().and_then(|s| s.parse::<std::net::Ipv6Addr>().ok()) {
+            Some(a) => format!("Ok {}", u128::from(a)),
+            None => "Err".into(),
+        },
         _ => "UnknownEntry".into(),
     }
 }
@@ -126,7 +134,7 @@ fn main() {
             Ok(t) => t,
             Err(p) => {
                 let msg = p.downcast_ref::<String>().cloned().or_else(|| p.downcast_ref::<&str>().map(|s| s.to_string())).unwrap_or_default();
-                format!("Panic {}", msg.replace('\n', " "))
+                format!("Panic {}", msg.chars().map(|c| if c.is_control() { ' ' } else { c }).collect::<String>())
             }
         };
         writeln!(out, "{}", text).unwrap();
